@@ -27,3 +27,26 @@ func t3VerifyToken(pk *rsa.PublicKey, enc []byte) bool {
 	d := sha512.Sum384(enc[:98])
 	return rsa.VerifyPSS(pk, crypto.SHA384, d[:], enc[98:], &rsa.PSSOptions{Hash: crypto.SHA384, SaltLength: 48}) == nil
 }
+
+type c06Cache struct {
+	m    map[string]*ClientState
+	puts int
+}
+
+func (c *c06Cache) Get(id string) (*ClientState, bool) { s, ok := c.m[id]; return s, ok }
+func (c *c06Cache) Put(id string, s *ClientState)       { c.m[id] = s; c.puts++ }
+
+
+func c07Honest(origin string, registered ...string) (*RateLimitedIssuer, RateLimitedTokenRequestState, []byte) {
+	issuer := t3Issuer(registered...)
+	secret := vBytes("client_secret", 48, 48)
+	vAssume(secret[0] != 0)
+	client := NewRateLimitedClientFromSecret(secret)
+	blind := vBytes("blind", 48, 48)
+	vAssume(blind[0] != 0)
+	st, err := client.CreateTokenRequest(vBytesC("challenge", 0, 1), vBytes("nonce", 32, 32), blind, issuer.TokenKeyID(), issuer.TokenKey(), origin, issuer.NameKey())
+	vAssume(err == nil)
+	wire := append([]byte{}, st.Request().Marshal()...)
+	return issuer, st, wire
+}
+
